@@ -178,14 +178,16 @@ def check_kept(log):
 def finish_delivery(log, d):
     fut, pid = log.pending.pop(d)
     log.add("cons_done", d=d, probe=pid)
-    fut.set_result(None)
+    if not fut.done():          # (whoever awaited it may have been cancelled, and the awaitable with it)
+        fut.set_result(None)
 
 
 def fail_delivery(log, d):
     """the consumer's awaitable raises"""
     fut, pid = log.pending.pop(d)
     log.add("cons_fail", d=d, probe=pid)
-    fut.set_exception(ConsumerError("consumer of delivery %d failed" % d))
+    if not fut.done():
+        fut.set_exception(ConsumerError("consumer of delivery %d failed" % d))
 
 
 class ConsumerError(Exception):
